@@ -49,7 +49,7 @@ CLAIMED = {
                   "permutation invariant and reduces to the 1-D symbol with a_0 -> D a_0 on states constant along the other axes (D <= 3).",
              note="Translation equivariance of all 36 classes, axis permutations (vector channels permuted along, vorticity pseudo-scalar sign, Nyquist-free states for odd-order symbols on even grids) and "
                   "1-D embedding along every axis are checked on the real code (incl. N = 32 where the dealiasing cutoff is fractional and odd N); permutation equivariance of the pseudo-spectral product and of the scalar isotropic terms (single-channel convection, gradient norm) is now proved for every axis "
-                  "permutation and every D; for the vector-valued terms (channels permuted along) it is checked on the real code.",
+                  "permutation and every D; and for the multi-channel convection (both forms, channels permuted along with the axes).",
              technique="Rocq proof (character-twist algebra of circular convolutions, stage-program equivariance) + symmetry sweep on the real code", design="§4 C08"),
  "C15": dict(text="Theorems: trigonometric interpolation is exact (any field with a primitive root, any n, any query point: the character table is arbitrary) and reproduces every state at its grid points "
                   "(inversion theorem); the copied mode blocks partition the smaller grid and preserve the signed wavenumber for all parity combinations; the resampling model keeps the mean of ANY "
